@@ -32,6 +32,15 @@ REGISTRY = dict(
     technique="machine-checked proof in Coq (induction over the oracle list / loop fuel; field/lra over Q) + regenerated-fragment interface lemmas + differential correspondence on real off-policy runs",
 )
 
+COV_TARGETS = {
+    "stable_baselines3/common/off_policy_algorithm.py": ["OffPolicyAlgorithm._sample_action", "OffPolicyAlgorithm._store_transition", "OffPolicyAlgorithm.collect_rollouts",
+                                                         "OffPolicyAlgorithm.learn", "OffPolicyAlgorithm._setup_learn", "OffPolicyAlgorithm._convert_train_freq"],
+    "stable_baselines3/common/policies.py": ["BasePolicy.scale_action", "BasePolicy.unscale_action"],
+    "stable_baselines3/common/base_class.py": ["BaseAlgorithm._setup_learn"],
+    "stable_baselines3/common/vec_env/vec_normalize.py": ["VecNormalize.step_wait", "VecNormalize.get_original_obs", "VecNormalize.get_original_reward", "VecNormalize.unnormalize_obs"],
+    "stable_baselines3/common/noise.py": ["VectorizedActionNoise"],
+}
+
 HEADER = """From Coq Require Import List ZArith QArith Bool.
 From SB3V Require Import Model.Script Model.OnPolicyCollect Model.OffPolicyCollect Model.Pipeline.
 Import ListNotations.
@@ -65,7 +74,7 @@ def gen_case(rng, i):
             "act": "discrete" if algo == "DQN" else rng.choice(["box", "box_asym", "box_asym"]),
             "noise": None if algo == "DQN" else rng.choice([None, "normal", "normal", "vec"]),
             "sde": algo == "SAC" and rng.random() < 0.3, "sde_warmup": rng.random() < 0.5,
-            "learning_starts": 1000 if her else rng.choice([0, 4, 9, 1000]), "vecnorm": rng.random() < 0.15 and obs in ("box1", "box2"),
+            "learning_starts": 1000 if her else rng.choice([0, 4, 9, 1000]), "vecnorm": rng.random() < 0.2 and obs in ("box1", "box2", "dictc"), "tf_int": rng.random() < 0.3,
             "calls": calls, "seed": rng.randint(0, 10**6),
             "scripts": [se.gen_script(rng, max_len=5, tag_base=1000 * e, tag_cap=250 if obs == "image" else se.MAXTAG - 1, p_both=0.2, p_trunc=0.4) for e in range(n_envs)]}
 
@@ -121,7 +130,8 @@ def run_impl(case):
         return lambda: LoggedEnv(case["scripts"][e], obs_kind=case["obs"] if obs_space is None else "box1", act_kind=case["act"], obs_space=obs_space, env_id=e)
 
     base = DummyVecEnv([mk(e) for e in range(ne)])
-    venv = VecNormalize(base, norm_obs=True, norm_reward=True, clip_obs=case.get("vn_clip") or 1e9, clip_reward=1e9, gamma=0.9) if case["vecnorm"] else base
+    vkw = dict(norm_obs_keys=["a"]) if case["obs"] == "dictc" else {}      # Dict observations: only the listed keys are normalised
+    venv = VecNormalize(base, norm_obs=True, norm_reward=True, clip_obs=case.get("vn_clip") or 1e9, clip_reward=1e9, gamma=0.9, **vkw) if case["vecnorm"] else base
     ospace = base.observation_space
     aspace = base.action_space
     adim = int(np.prod(aspace.shape)) if isinstance(aspace, spaces.Box) else 1
@@ -149,7 +159,8 @@ def run_impl(case):
     pk = dict(net_arch=[8])
     if case["obs"] == "image":
         pk["features_extractor_kwargs"] = dict(features_dim=8)
-    kw = dict(train_freq=(case["tf"][1], case["tf"][0]), learning_starts=case["learning_starts"], batch_size=4, buffer_size=case.get("buffer_size", 120), gradient_steps=1,
+    tf_arg = case["tf"][1] if case.get("tf_int") and case["tf"][0] == "step" else (case["tf"][1], case["tf"][0])   # an int means steps
+    kw = dict(train_freq=tf_arg, learning_starts=case["learning_starts"], batch_size=4, buffer_size=case.get("buffer_size", 120), gradient_steps=1,
               policy_kwargs=pk, device="cpu", seed=case["seed"])
     if case["algo"] != "DQN":
         kw["action_noise"] = noise
@@ -189,14 +200,14 @@ def run_impl(case):
             if isinstance(ospace, spaces.Discrete):
                 batch = np.asarray(batch).reshape(ne)
             if case["vecnorm"]:
-                batch = np.rint(np.asarray(batch, dtype=np.float64))
-                if not np.allclose(batch, np.asarray(batch), atol=0):
-                    pass
+                batch = {k: np.rint(np.asarray(v, dtype=np.float64)) for k, v in batch.items()} if isinstance(batch, dict) else np.rint(np.asarray(batch, dtype=np.float64))
             return [collapse(t) for t in se.decode_batch(dspace, batch, ne)]
         except se.MixedObservation as ex:
             return [f"mixed:{ex}"] * ne
 
     def raw_err(batch):
+        if isinstance(batch, dict):
+            return max(raw_err(v) for v in batch.values())
         b = np.asarray(batch, dtype=np.float64)
         return float(np.max(np.abs(b - np.rint(b)))) if b.size else 0.0
 
@@ -208,7 +219,15 @@ def run_impl(case):
             if not bool(np.asarray(done).reshape(-1)[e]):
                 continue
             tag = [r for r in base.envs[e].gt if r[0] == "step"][-1][1]
-            raw = np.asarray(se.encode(ospace, tag), dtype=np.float64)
+            raw = se.encode(ospace, tag)
+            if isinstance(raw, dict):
+                rt = venv.unnormalize_obs(venv.normalize_obs({k: np.asarray(v, dtype=np.float32) for k, v in raw.items()}))
+                d_raw = max(float(np.max(np.abs(np.asarray(next_obs[k][e], dtype=np.float64) - np.asarray(raw[k], dtype=np.float64)))) for k in raw)
+                d_rt = max(float(np.max(np.abs(np.asarray(next_obs[k][e], dtype=np.float64) - np.asarray(rt[k], dtype=np.float64)))) for k in raw)
+                first = float(np.asarray(next_obs[next(iter(raw))][e]).reshape(-1)[0])
+                out[e] = {"raw": tag, "raw_diff": d_raw, "rt_diff": d_rt, "stored": first}
+                continue
+            raw = np.asarray(raw, dtype=np.float64)
             rt = np.asarray(venv.unnormalize_obs(venv.normalize_obs(raw.astype(np.float32))), dtype=np.float64)
             got = np.asarray(next_obs[e], dtype=np.float64)
             out[e] = {"raw": tag, "raw_diff": float(np.max(np.abs(got - raw))), "rt_diff": float(np.max(np.abs(got - rt))), "stored": float(got.reshape(-1)[0])}
@@ -333,7 +352,17 @@ def run_impl(case):
 
 
 def _worker(case):
+    from harness import cov_collect as branchcov
+
     try:
+        if branchcov.enabled():
+            branchcov.start(list(COV_TARGETS))
+            try:
+                res = run_impl(case)
+            finally:
+                cov = branchcov.stop()
+            res["cov"] = cov
+            return res
         return run_impl(case)
     except Exception:  # noqa: BLE001
         import traceback
@@ -748,6 +777,11 @@ def main():
         "VecNormalize runs (clipping disabled) are judged by the statement-level oracle only; raw observations are decoded after rounding to the nearest integer tag (distance reported)",
         "a learn() stopped by a callback is not exercised (the step whose callback returned False is not stored by design of collect_rollouts)",
     ]
+    from harness import cov_collect as branchcov
+
+    if branchcov.enabled():
+        executed = {tuple(x) for im in impls for x in (im.get("cov") or [])}
+        chk.notes["branchcov"] = {"targets": {k: v for k, v in COV_TARGETS.items()}, "never_executed": branchcov.report(COV_TARGETS, executed)}
     return chk.finish()
 
 
